@@ -665,7 +665,8 @@ def classify(got, exp_recs, exp_unch, ia, ib, it, cts, wu, filters, allow_rename
         for t, o, n in got:
             for side in (o, n):
                 if side is not None and not gt.matches(side[0], filters, gt.is_dir_mode(side[1])):
-                    return "reports-change-outside-path-filter"
+                    above = any(f.startswith(side[0] + b"/") for f in filters)
+                    return "reports-change-outside-path-filter:" + ("non-directory-at-a-parent-of-the-filter" if above else "unrelated-path")
     for t, o, n in got:
         if t in ("rename", "copy"):
             if (o[1] & gt.IFMT) != (n[1] & gt.IFMT):
